@@ -314,4 +314,24 @@ example : deliveries (rpcRoundTrip [0, 1, 2] 2 true false 0 1 { origin := none, 
     ∧ deliveries (rpcRoundTrip [0, 1, 2] 2 true true 0 1 { origin := none, fwd := some true, body := 7 }) 0 = 0 := by
   decide
 
+/-! ## messages published while a side closes -/
+
+theorem C16_close_order : Gen.closeStopsForwardersFirst = false := by decide
+
+/-- **what a closing side publishes with the forward flag still reaches every other side exactly
+    once** (`terminate` from the client's `Session.close()`, the `cancel_pilots` of its pilot manager):
+    the forwarders are stopped only after these publications (`C16_close_order`, read from the source) -/
+theorem C16_close_forwarded (sides : List Nat) (hn : sides.Nodup) (fuel : Nat) (c : Nat) (hc : c ∈ sides) (body : Nat) :
+    ∀ t ∈ sides, t ≠ c →
+      deliveries (closePub Gen.closeStopsForwardersFirst sides (fuel + 2) c { origin := none, fwd := some true, body := body }) t = 1 := by
+  rw [C16_close_order]
+  simp only [closePub, Bool.false_eq_true, if_false]
+  exact (C16 sides hn fuel c hc _).2.1 ⟨rfl, Or.inl rfl⟩
+
+/-- the order matters: were the forwarders stopped first, no other side would see the message -/
+theorem C16_close_order_matters (sides : List Nat) (fuel : Nat) (c t : Nat) (ht : t ≠ c) (m : Msg) :
+    deliveries (closePub true sides fuel c m) t = 0 := by
+  have : ¬ c = t := fun e => ht e.symm
+  simp [closePub, deliveries, this]
+
 end RPVerif.C16
